@@ -11,9 +11,23 @@ namespace H2.Client
 
 /-! ## stream identifiers -/
 
+/-- the stream a frame opens: HEADERS, with END_HEADERS or without (CONTINUATION frames open nothing) -/
 def hdrId : OutFrame → Option Nat
   | .headers sid _ _ => some sid
+  | .hfrag sid _ _ => some sid
   | _ => none
+
+theorem contFrames_ids (sid : Nat) (fl : List (Bytes × Bytes)) (ls : List Nat) : (contFrames sid fl ls).filterMap hdrId = [] := by
+  induction ls with
+  | nil => rfl
+  | cons l ls ih => simp only [contFrames, List.filterMap_cons, hdrId]; exact ih
+
+/-- one header block opens one stream -/
+theorem block_ids {sid : Nat} {es : Bool} {fl : List (Bytes × Bytes)} {blk : List OutFrame} (h : BlockOf sid es fl blk) :
+    blk.filterMap hdrId = [sid] := by
+  obtain ⟨l, ls, rfl⟩ := h
+  simp only [headerFrames]
+  split <;> simp [hdrId, contFrames_ids]
 
 /-- identifiers of the HEADERS frames of an output, in the order written -/
 def outIds : StepOut → List Nat
@@ -42,9 +56,9 @@ theorem step_ids (c : Conn) (h : HInv c) (ev : Event) :
   · cases ho : (step c ev).2 with
     | frames fs =>
       right
-      obtain ⟨rest, e, hr⟩ := hf fs ho
+      obtain ⟨blk, rest, e, hb, hr⟩ := hf fs ho
       refine ⟨?_, hn⟩
-      simp only [outIds, e, List.filterMap_cons, wrHeaders, hdrId, noHdr_ids hr]
+      simp only [outIds, e, List.filterMap_append, block_ids hb, noHdr_ids hr, List.append_nil]
     | _ => left; exact ⟨rfl, .inr hn⟩
 
 theorem run_ids : ∀ (evs : List Event) (c : Conn), HInv c → c.nextID % 2 = 1 →
